@@ -536,5 +536,47 @@ Proof.
     eapply allQ_bnd_ex; [eapply (allQ_weaken _ _ _ _ s0 x); [solveQ|apply allQ_map_loop; [lia|exact Hx]]|intros ? ? ?|num] end.
   all: solveJ.
 Qed.
+
+Ltac stepK :=
+  match goal with
+  | |- allQ _ _ (bnd (str_u _ ?x) _) => bndQ x allQ_str_u
+  | |- allQ _ _ (bnd (str_s _ ?x) _) => bndQ x allQ_str_s
+  | |- allQ _ ?s0 (list_iface _ _ _ ?x) =>
+      eapply allQ_le; [eapply (allQ_weaken _ _ _ _ s0 x); [solveQ|apply allQ_list_iface; pbound]|num]
+  | |- allQ _ ?s0 (bnd (decode_map _ _ _ _ _ ?x) _) =>
+      eapply allQ_bnd_ex; [eapply (allQ_weaken _ _ _ _ s0 x); [solveQ|apply allQ_decode_map; pbound]|intros ? ? ?|num]
+  | |- allQ _ ?s0 (decode_map _ _ _ _ _ ?x) =>
+      eapply allQ_le; [eapply (allQ_weaken _ _ _ _ s0 x); [solveQ|apply allQ_decode_map; pbound]|num]
+  | |- allQ _ ?s0 (get_class ?x _) =>
+      eapply allQ_le; [eapply (allQ_weaken _ _ _ _ s0 x); [solveQ|apply (allQ_get_class _ 20); [lia|intros ? ? ?|pbound]]|num]
+  | |- allQ _ ?s0 (decode_field _ _ _ ?x) =>
+      first [ match goal with Hl : stuck x = false |- _ =>
+                eapply allQ_le; [eapply (allQ_weaken _ _ _ _ s0 x); [solveQ|apply allQ_decode_field_live; [pbound|exact Hl]]|num] end
+            | eapply allQ_le; [eapply (allQ_weaken _ _ _ _ s0 x); [solveQ|apply allQ_decode_field; pbound]|num] ]
+  | _ => stepJ
+  end.
+Ltac solveK := repeat stepK.
+
+Lemma allQ_dec_iface : forall tag s, (P s <= p0)%nat -> allQ c0 s (dec_iface orc registry fx rv lf tag s).
+Proof. intros tag s Hp. unfold dec_iface, c0. solveK. Qed.
+Lemma allQ_dec_num : forall k tag s, (P s <= p0)%nat -> allQ (2 * c0) s (dec_num orc registry fx rv rt lf k tag s).
+Proof. intros k tag s Hp. unfold dec_num, c0. solveK; destruct k; solveK. Qed.
+Lemma allQ_dec_string : forall tag s, (P s <= p0)%nat -> allQ (2 * c0) s (dec_string orc registry fx rv rt lf tag s).
+Proof. intros tag s Hp. unfold dec_string, c0. solveK. Qed.
+Lemma allQ_uint8_slice : forall s, (P s <= p0)%nat -> allQ 6 s (uint8_slice fx rv lf s).
+Proof. intros s Hp. unfold uint8_slice. solveK. Qed.
+Lemma allQ_dec_bytes : forall tag s, (P s <= p0)%nat -> allQ (2 * c0) s (dec_bytes orc registry fx rv rt lf tag s).
+Proof.
+  intros tag s Hp. unfold dec_bytes, c0. solveK.
+  eapply allQ_le; [apply allQ_uint8_slice; exact Hp|lia].
+Qed.
+Lemma allQ_dec_big : forall b tag s, (P s <= p0)%nat -> allQ (2 * c0) s (dec_big orc registry fx rv rt lf b tag s).
+Proof. intros b tag s Hp. unfold dec_big, c0. solveK; destruct b; solveK. Qed.
+Lemma allQ_dec_time : forall tag s, (P s <= p0)%nat -> allQ (2 * c0) s (dec_time orc registry fx rv rt lf tag s).
+Proof. intros tag s Hp. unfold dec_time, c0. solveK. Qed.
+Lemma allQ_dec_uuid : forall tag s, (P s <= p0)%nat -> allQ (2 * c0) s (dec_uuid orc registry fx rv rt lf tag s).
+Proof. intros tag s Hp. unfold dec_uuid, c0. solveK. Qed.
+Lemma allQ_dec_slice : forall e tag s, (P s <= p0)%nat -> allQ (2 * c0) s (dec_slice orc registry fx rv rt lf e tag s).
+Proof. intros e tag s Hp. unfold dec_slice, c0. solveK. Qed.
 End BodyCost.
 End Cost.
